@@ -338,22 +338,36 @@ func c20HostFunctions(c *ev.Ctx) {
 			`function hostf(a, b) { return "script"; } return [hostf(1), hostf(2)];`,
 			`function hostf() { return "script"; } function other(n) { return hostf(n); } return [other(1), hostf(2)];`,
 		} {
-			for _, noOpt := range []bool{false, true} {
+			for variant := 0; variant < 4; variant++ {
+				noOpt := variant%2 == 1
+				late := variant >= 2 // the host registers its function after Prepare (the usual order in the examples)
 				calls := 0
-				evr, err := eng.New(script, eng.Options{NoOptimize: noOpt, Funcs: map[string]func([]object.Object) object.Object{
-					"hostf": func(a []object.Object) object.Object {
-						calls++
-						return &object.String{Value: "host:" + a[0].Inspect()}
-					}}})
-				c.Case(fmt.Sprint("hostfn/same-name", vi, noOpt), true)
+				hostf := func(a []object.Object) object.Object {
+					calls++
+					return &object.String{Value: "host:" + a[0].Inspect()}
+				}
+				funcs := map[string]func([]object.Object) object.Object{"hostf": hostf}
+				if late {
+					funcs = nil
+				}
+				evr, err := eng.New(script, eng.Options{NoOptimize: noOpt, Funcs: funcs})
+				c.Case(fmt.Sprint("hostfn/same-name", vi, variant), true)
 				if err != nil {
 					c.Violation("hostfn/script-function-of-the-same-name", "prepare", map[string]interface{}{"summary": err.Error(), "script": script})
 					continue
 				}
+				if late {
+					if vi != 1 {
+						// one run with the script's own function first (except where the script
+						// calls it with the host's arity only), then the host takes the name over
+						evr.Exec(nil)
+					}
+					evr.E.AddFunction("hostf", hostf)
+				}
 				o := evr.Exec(nil)
 				b, rerr, _, _ := evr.RunBool(nil)
 				if o.Desc() != "ARRAY:[host:1, host:2]" || calls != 4 || !b || rerr != nil {
-					c.Violation("hostfn/script-function-of-the-same-name", "script function replaces a host function", map[string]interface{}{"summary": fmt.Sprintf("%s (noopt=%v): Execute gives %s %s, Run gives %v err=%v, the host function was called %d times (expected [host:1, host:2], true, 4 calls)", script, noOpt, o.Desc(), errText(o.Err), b, rerr, calls), "script": script})
+					c.Violation("hostfn/script-function-of-the-same-name", "script function replaces a host function", map[string]interface{}{"summary": fmt.Sprintf("%s (noopt=%v): Execute gives %s %s, Run gives %v err=%v, the host function was called %d times (expected [host:1, host:2], true, 4 calls; registered after Prepare: %v)", script, noOpt, o.Desc(), errText(o.Err), b, rerr, calls, late), "script": script})
 				}
 			}
 		}
@@ -379,6 +393,26 @@ func c20NoOptimize(c *ev.Ctx) {
 	b, _ := eng.New(`return 1 + 2;`, eng.Options{NoOptimize: true})
 	if a == nil || b == nil || a.MainBytecode() == b.MainBytecode() || !strings.Contains(b.MainBytecode(), "10") {
 		c.Violation("noopt/basic", "NoOptimize does not disable optimisation", map[string]interface{}{"summary": "NoOptimize: optimised and unoptimised programs of `return 1 + 2;` are the same"})
+	}
+	// NoOptimize covers the bodies of user-defined functions as well as the main program:
+	// the body of `function three() { return 1 + 2; }` is the code of `return 1 + 2;`
+	for _, body := range []string{`return 1 + 2;`, `if (1 == 1) { return 2 * 3; } return 4;`, `x = 10 - 3; return x;`} {
+		id := "noopt/function-bodies"
+		if !c.Want(id) {
+			break
+		}
+		main, err1 := eng.New(body, eng.Options{NoOptimize: true})
+		fn, err2 := eng.New("function three() { "+body+" } return three();", eng.Options{NoOptimize: true})
+		fnOpt, err3 := eng.New("function three() { "+body+" } return three();", eng.Options{})
+		c.Case(id+body, true)
+		if err1 != nil || err2 != nil || err3 != nil {
+			continue
+		}
+		got := fmt.Sprintf("%x", []byte(fn.E.VerifMachine().VerifFunctions()["three"].Bytecode))
+		opt := fmt.Sprintf("%x", []byte(fnOpt.E.VerifMachine().VerifFunctions()["three"].Bytecode))
+		if got != main.MainBytecode() || got == opt {
+			c.Violation(id, "NoOptimize does not cover function bodies", map[string]interface{}{"summary": fmt.Sprintf("function three() { %s } prepared with NoOptimize has the body %s; the same statements as a main program compile to %s, and the optimised body is %s", body, got, main.MainBytecode(), opt), "script": body})
+		}
 	}
 	// the flag of the most recent Prepare decides
 	e := evalfilter.New(`return 1 + 2;`)
